@@ -135,6 +135,26 @@ def scan_sources(repo):
     return hits
 
 
+def scan_uninterceptable(repo):
+    """set algebra on dict views (`a.keys() & b.keys()` ...) builds builtin sets without going through the
+    name `set`: reported (evidence), and covered only by the real-seed differential runs of C12"""
+    import ast
+    import os
+    hits = []
+    for modname in MODULES:
+        path = os.path.join(repo, *modname.split(".")) + ".py"
+        if not os.path.exists(path):
+            continue
+        tree = ast.parse(open(path).read())
+        for node in ast.walk(tree):
+            if isinstance(node, ast.BinOp) and isinstance(node.op, (ast.BitAnd, ast.BitOr, ast.BitXor, ast.Sub)):
+                for side in (node.left, node.right):
+                    if isinstance(side, ast.Call) and isinstance(side.func, ast.Attribute) and side.func.attr in ("keys", "items"):
+                        hits.append("%s:%d" % (os.path.relpath(path, repo), node.lineno))
+                        break
+    return hits
+
+
 @contextlib.contextmanager
 def injected():
     import importlib
